@@ -96,6 +96,15 @@ func main() {
 		probeSiblingCandidates(c)
 		os.Exit(0)
 	}
+	if *prop == "probe-errlost" {
+		c, err := Load(*repo, nil, "")
+		if err != nil {
+			fmt.Fprintln(os.Stderr, err)
+			os.Exit(2)
+		}
+		probeErrLost(c)
+		os.Exit(0)
+	}
 	if *prop == "probe-swallow" {
 		c, err := Load(*repo, nil, "")
 		if err != nil {
